@@ -186,8 +186,10 @@ def parquet_row_group_size(n: int, pq_seed: int, pq_rowgroup=None) -> int:
     return 1 + (int(pq_seed) % max(1, min(n, 97)))
 
 
-def write_source(kind: str, path: str, records: dict, patch_ids=None, *, pq_seed: int = 0, pq_rowgroup: int | None = None):
-    """Write the records as FITS / HDF5 / Parquet input file."""
+def write_source(kind: str, path: str, records: dict, patch_ids=None, *, pq_seed: int = 0, pq_rowgroup: int | None = None,
+                 fits_hdu: int = 1):
+    """Write the records as FITS / HDF5 / Parquet input file.  ``fits_hdu`` > 1 puts the table into
+    that extension, behind decoy tables with the same columns but fewer, other rows."""
     cols = dict(records)
     if patch_ids is not None:
         cols["pid"] = np.asarray(patch_ids)
@@ -201,7 +203,23 @@ def write_source(kind: str, path: str, records: dict, patch_ids=None, *, pq_seed
             )
             for k, v in cols.items()
         ]
-        fits.BinTableHDU.from_columns(fcols).writeto(path, overwrite=True)
+        table = fits.BinTableHDU.from_columns(fcols)
+        if fits_hdu <= 1:
+            table.writeto(path, overwrite=True)
+        else:
+            n = len(next(iter(cols.values()))) if cols else 0
+            m = max(1, n // 3)
+            decoys = []
+            for j in range(fits_hdu - 1):
+                dcols = [
+                    fits.Column(
+                        name=k, array=np.asarray(v)[::-1][: m + j].copy(), format=_fits_fmt(v.dtype),
+                        **({"bzero": 2 ** (8 * v.dtype.itemsize - 1)} if v.dtype.kind == "u" else {}),
+                    )
+                    for k, v in cols.items()
+                ]
+                decoys.append(fits.BinTableHDU.from_columns(dcols))
+            fits.HDUList([fits.PrimaryHDU(), *decoys, table]).writeto(path, overwrite=True)
     elif kind == "hdf5":
         import h5py
 
